@@ -295,8 +295,16 @@ func (w *c06World) wake() {
 
 // payload markers: the monitor compares what arrives with pristine clones, byte for byte
 func c06Msg(id int64) *repResp {
-	return msgResp(id, &replicationpb.ReplicationTask{SourceTaskId: id - 1, TaskType: 1,
-		RawTaskInfo: &persistencepb.ReplicationTaskInfo{NamespaceId: "ns-c06", WorkflowId: fmt.Sprintf("wf-%d", id), RunId: fmt.Sprintf("marker-%d-\x00ü", id), TaskId: id - 1, Version: id * 7}})
+	mk := func(tid int64) *replicationpb.ReplicationTask {
+		return &replicationpb.ReplicationTask{SourceTaskId: tid, TaskType: 1,
+			RawTaskInfo: &persistencepb.ReplicationTaskInfo{NamespaceId: "ns-c06", WorkflowId: fmt.Sprintf("wf-%d", id), RunId: fmt.Sprintf("marker-%d-\x00ü", id), TaskId: tid, Version: id * 7}}
+	}
+	if id%3 == 0 {
+		// a batch of several tasks whose ids are NOT ascending (a pass-through relay has no business with their order),
+		// one of them repeated
+		return msgResp(id, mk(id+5), mk(id-1), mk(id+2), mk(id-1))
+	}
+	return msgResp(id, mk(id-1))
 }
 
 // sync-state message number id. The (deprecated) top-level watermark REPEATS for consecutive messages — a receiver
